@@ -382,7 +382,12 @@ def run(rep):
         for a, b in ((">=", ">"), ("<=", "<")):
             ok = a in order and b in order and order.index(a) < order.index(b)
             rep.check(ok, "T-NUM", "T-NUM/order/%s<%s" % (a, b), idf.sp, "prefix %r is tested before %r" % (a, b), str(order))
-    rep.floor("T-NUM", 17)
+    import core as _core
+    import identmodel as _im
+    _rows, _un = _im.evaluate(F, False)
+    _core.import_rules(rep, "c07", {"IDENT-MODEL"})
+    if not _core.model_decides(rep, _rows is not None and all(r[3] for r in _rows), {"T-NUM"}, "numeric pattern syntax decided by the into_identifier model"):
+        rep.floor("T-NUM", 17)
 
     # ---------------------------------------------------------------- T-STR
     rep.describe("T-STR", "str(a) == str(b): both sides are looked up, converted with Value::to_string, compared with ==; absent => Missing, unconvertible => False")
